@@ -7,3 +7,7 @@ import CspuzModel.Properties.C17
 #print axioms Cspuz.C17.C17_reencodable_partial
 #print axioms Cspuz.C17.C17_reencodable_nested
 #print axioms Cspuz.C17.C17_reencodable_puzzles
+#print axioms Cspuz.C17.C17_rooms_decoded_canonical
+#print axioms Cspuz.C17.C17_reencodable_rooms
+#print axioms Cspuz.C17.C17_reencodable_valued_rooms
+#print axioms Cspuz.C17.C17_reencodable_rooms_puzzles
